@@ -2,6 +2,7 @@
 #define _PROPHY_DETAIL_DECODER_HPP_
 
 #include <stdint.h>
+#include <string.h>
 #include <prophy/endianness.hpp>
 #include <prophy/optional.hpp>
 #include <prophy/detail/codec_traits.hpp>
@@ -116,25 +117,33 @@ inline void decode_int<big, int64_t>(int64_t& x, const uint8_t* pos)
 template <>
 inline void decode_int<little, float>(float& x, const uint8_t* pos)
 {
-    decode_int<little>(reinterpret_cast<uint32_t&>(x), pos);
+    uint32_t bits;
+    decode_int<little>(bits, pos);
+    memcpy(&x, &bits, sizeof(bits));  /// writing the float through an integer reference breaks the aliasing rules
 }
 
 template <>
 inline void decode_int<big, float>(float& x, const uint8_t* pos)
 {
-    decode_int<big>(reinterpret_cast<uint32_t&>(x), pos);
+    uint32_t bits;
+    decode_int<big>(bits, pos);
+    memcpy(&x, &bits, sizeof(bits));  /// writing the float through an integer reference breaks the aliasing rules
 }
 
 template <>
 inline void decode_int<little, double>(double& x, const uint8_t* pos)
 {
-    decode_int<little>(reinterpret_cast<uint64_t&>(x), pos);
+    uint64_t bits;
+    decode_int<little>(bits, pos);
+    memcpy(&x, &bits, sizeof(bits));  /// writing the float through an integer reference breaks the aliasing rules
 }
 
 template <>
 inline void decode_int<big, double>(double& x, const uint8_t* pos)
 {
-    decode_int<big>(reinterpret_cast<uint64_t&>(x), pos);
+    uint64_t bits;
+    decode_int<big>(bits, pos);
+    memcpy(&x, &bits, sizeof(bits));  /// writing the float through an integer reference breaks the aliasing rules
 }
 
 template <endianness E, typename T,
